@@ -67,7 +67,7 @@ def plain(v):
     return {'__obj__': getattr(v, '__name__', type(v).__name__)}
 
 
-def capture(ep, argv):
+def capture(ep, argv, pre=()):
     """Returns {'ns': {...}, 'ignore': {...}|None} or {'err': kind, 'msg': ...}."""
     import importlib
     modname, fn, prefix, positional = EP_MAIN[ep]
@@ -88,7 +88,7 @@ def capture(ep, argv):
     A.set_notebook_diff_ignores = lambda ignore: installed.append(plain(ignore))
     try:
         try:
-            getattr(module, fn)(list(prefix) + list(argv) + list(positional))
+            getattr(module, fn)(list(pre) + list(prefix) + list(argv) + list(positional))
         except _Stop:
             pass
         except SystemExit as e:
